@@ -21,6 +21,7 @@ import (
 type Worker struct {
 	Cfg     *Config
 	banned  map[string]bool // pools seen banned in the current scenario
+	late    bool            // the machine was seen to be seconds behind in the current scenario
 	H       *Host
 	Cl      *Cluster
 	Log     *EventLog
@@ -125,6 +126,12 @@ func (w *Worker) sync() *core.VerifSnap {
 		if pfd := w.peerFd(&c); pfd >= 0 {
 			delivered(c.Fd, pfd, deadline)
 		}
+	}
+	if time.Now().After(deadline) && !w.late {
+		// bytes (or a connection) written seconds ago have still not arrived: whatever the scenario does next happens
+		// in an order that the machine, not the proxy, decides
+		w.late = true
+		w.Log.Add(Event{Ev: "envlate"})
 	}
 	w.Cl.Pump()
 	w.drainClients()
@@ -458,7 +465,12 @@ func (w *Worker) apply(st *Stim) {
 			n = 1
 		}
 		for i := 0; i < n; i++ {
-			if !w.Cl.Answer(st.N, st.Kind, st.Cls, st.To, raw, part) {
+			ok := w.Cl.Answer(st.N, st.Kind, st.Cls, st.To, raw, part)
+			if !ok {
+				w.Cl.Pump() // bytes the proxy wrote a while ago may have arrived only now (a busy machine)
+				ok = w.Cl.Answer(st.N, st.Kind, st.Cls, st.To, raw, part)
+			}
+			if !ok {
 				w.Unreal++
 				w.Log.Add(Event{Ev: "skip", N: st.N, Txt: "answer: nothing pending"})
 			}
@@ -810,6 +822,7 @@ func (w *Worker) RunScenario(sc *Scenario) {
 	w.Log.Tid++
 	w.Log.Add(Event{Ev: "begin", Txt: sc.Id, K: sc.Role})
 	w.banned = map[string]bool{}
+	w.late = false
 	for _, st := range sc.Steps {
 		for _, x := range st.Stim {
 			if x.Op == "topo" || x.Op == "race" {
@@ -889,7 +902,14 @@ opened:
 		w.settle(64)
 		// bounded real wait before concluding absence
 		time.Sleep(2 * time.Millisecond)
+		r0 := w.Log.Recvs
 		w.sync()
+		if w.Log.Recvs > r0 && !w.late {
+			// the proxy has not run since the last step, yet requests arrived at a node only now: they were on their
+			// way for longer than the steps that were to answer them
+			w.late = true
+			w.Log.Add(Event{Ev: "envlate"})
+		}
 		w.Log.Add(Event{Ev: "quiesce", I: w.Cl.Owes()})
 	}
 	w.Log.Add(Event{Ev: "end", Txt: sc.Id})
